@@ -5,9 +5,10 @@
    [merge_entries vs] is merge_resources on the freshly walked versions (newest
    first), [merge_channels name vs] the text merge_channels returns.
    Hypothesis of the positive theorems: [ukeys v] — within one version no two keyed
-   entries (entities, sections, instructions, junk) share their key ("record pool").
-   Known finding outside it: an .ini section named like a key ([a] / a=1) collides
-   (C15_section_collision_refuted).
+   entries (entities, instructions, junk) share their key and no two .ini sections
+   share their name ("record pool").  A section is keyed by ("[section]", name)
+   (dict key DS), so a section named like an entity key does not collide with it
+   (C15_example_section_named_like_key; repaired in /repo, was a finding).
 
    The re-parse clause of the property ("the result re-parses without junk") needs
    the block theorems of C02, which are not available: C15_reparse_partial states it
@@ -98,10 +99,10 @@ Definition ex_new := [ent [97] [97;61;49]; ws [10]; ent [98] [98;61;50]; ws [10]
 Definition ex_old := [ent [97] [97;61;57]; ws [10]; com [35;32;99]; ws [10;10];
                       ent [122] [122;61;51]; ws [10]; ent [98] [98;61;50]; ws [10]].
 
+Ltac nodup := vm_compute; repeat (apply NoDup_cons; [vm_compute; intuition discriminate|]); apply NoDup_nil.
+
 Example C15_example_ukeys : Forall ukeys [ex_new; ex_old].
-Proof.
-  repeat constructor; cbn; intros H; repeat (destruct H as [H|H]; try discriminate); exact H.
-Qed.
+Proof. constructor; [split; nodup|constructor; [split; nodup|constructor]]. Qed.
 
 Example C15_example_nonjunk : Forall (Forall nonjunk) [ex_new; ex_old].
 Proof. repeat constructor. Qed.
@@ -114,8 +115,7 @@ Proof. vm_compute. reflexivity. Qed.
 
 Example C15_example_identical_hyps : ukeys ex_old /\ no_adj_white ex_old.
 Proof.
-  split; [|cbn; intuition].
-  unfold ukeys. cbn. repeat (apply NoDup_cons; [cbn; intuition discriminate|]). apply NoDup_nil.
+  split; [|cbn; intuition]. split; nodup.
 Qed.
 
 Example C15_example_identical :
@@ -129,7 +129,7 @@ Theorem C15_identical_adjacent_refuted :
     merge_channels name [v; v] <> Ok (concat (map c_text v)).
 Proof.
   exists (s [102;46;105;110;105]), 3, [ws [10]; ws [32]]. split; [vm_compute; reflexivity|].
-  split; [constructor|]. vm_compute. discriminate.
+  split; [split; constructor|]. vm_compute. discriminate.
 Qed.
 
 Example C15_example_parser :
@@ -137,15 +137,17 @@ Example C15_example_parser :
   get_parser (s [97;46;112;114;111;112;101;114;116;105;101;115]) = Ok (Some 2).
 Proof. vm_compute. split; reflexivity. Qed.
 
-(* known finding: an .ini section whose name is also a key — [a] / a=1 — loses the
-   section: the single version does not come back (the section and the entity share
-   the dict key) *)
-Definition ex_ini := [mkc COther (s [97]) (s [91;97;93]) [] 0; ws [10];
+(* an .ini section whose name is also a key — [a] / a=1 — keeps its own dict key
+   ("[section]", "a"): the version satisfies [ukeys], comes back unchanged, and merged
+   with an older version that has another key in the section nothing is lost:
+   "[a]\na=1\n" + "[a]\na=0\nb=2\n"  ->  "[a]\na=1\nb=2\n" *)
+Definition ex_ini := [mkc CSection (s [97]) (s [91;97;93]) [] 0; ws [10];
                       ent [97] [97;61;49]; ws [10]].
-Theorem C15_section_collision_refuted :
-  exists name v, get_parser name = Ok (Some 3) /\
-    merge_channels name [v] <> Ok (concat (map c_text v)).
-Proof.
-  exists (s [102;46;105;110;105]), ex_ini. split; [vm_compute; reflexivity|].
-  vm_compute. discriminate.
-Qed.
+Definition ex_ini_old := [mkc CSection (s [97]) (s [91;97;93]) [] 0; ws [10];
+                          ent [97] [97;61;48]; ws [10]; ent [98] [98;61;50]; ws [10]].
+Example C15_example_section_named_like_key :
+  ukeys ex_ini /\
+  merge_channels (s [102;46;105;110;105]) [ex_ini] = Ok (concat (map c_text ex_ini)) /\
+  merge_channels (s [102;46;105;110;105]) [ex_ini; ex_ini_old] =
+    Ok (s [91;97;93;10; 97;61;49;10; 98;61;50;10]).
+Proof. split; [split; nodup|]. split; vm_compute; reflexivity. Qed.
